@@ -1356,7 +1356,7 @@ func metaReplay(args []string) error {
 		}
 		r.Nontrivial = muts >= 3
 	}
-	if err := vutil.Isolated("meta", *in, res, run, 60*time.Second); err != nil {
+	if err := vutil.Isolated("meta", *in, res, run, 300*time.Second); err != nil {
 		return err
 	}
 	if os.Getenv("VH_CHILD") != "" {
